@@ -556,6 +556,10 @@ using ${trait}RetTmp = void;
     let gr_regex = group_ret_tmp_regex(&zst_rets)?;
     let header = gr_regex.replace_all(&header, "");
 
+    // `NoContext` is zero-sized, cbindgen only forward declares it. Objects without a context
+    // use the `void` context specializations.
+    let header = Regex::new(r"(?m)^struct NoContext;$")?.replace(&header, "using NoContext = void;");
+
     // Add `typedef typename CGlueC::Context Context;` to each vtable
     // Also add vtable builder to each vtable
     let header = vtbl_regex.replace_all(&header, |caps: &Captures| {
